@@ -967,9 +967,16 @@ class Parser:
         """Parse postfix expression (member access, calls, postfix ++/--)."""
         return self._continue_postfix_expression(self._parse_new_expression())
 
-    def _continue_postfix_expression(self, expr: Node) -> Node:
-        """Apply member accesses, calls and postfix ++/-- to an already parsed operand."""
+    def _continue_postfix_expression(
+        self, expr: Node, members_only: bool = False
+    ) -> Node:
+        """Apply member accesses, calls and postfix ++/-- to an already parsed operand.
+
+        With members_only, stop before a call or ++/-- (the callee of `new`).
+        """
         while True:
+            if members_only and not self._check(TokenType.DOT, TokenType.LBRACKET):
+                break
             if self._match(TokenType.DOT):
                 # Member access: a.b (keywords allowed as property names)
                 if self._check(TokenType.IDENTIFIER):
@@ -1006,7 +1013,10 @@ class Parser:
     def _parse_new_expression(self) -> Node:
         """Parse new expression."""
         if self._match(TokenType.NEW):
-            callee = self._parse_new_expression()
+            # new a.b.c(args): the member accesses belong to the callee
+            callee = self._continue_postfix_expression(
+                self._parse_new_expression(), members_only=True
+            )
             args: List[Node] = []
             if self._match(TokenType.LPAREN):
                 args = self._parse_arguments()
